@@ -180,4 +180,20 @@ theorem filter_src_allLines (datas : List Bytes) (i : Nat) (d : Bytes) (h : data
   rw [filter_src_zipIdx i datas 0]
   simp [h]
 
+/-! ### the whole run in terms of what each planned input delivers -/
+
+/-- what one planned input hands to the extractor and whether it is counted as a read error -/
+def Source.delivered (gunzip : Bool) (files : Path → FileOracle) (stdin : Bytes) : Source → Bytes
+  | .stdin => stdin
+  | .file p => (readOutcome (files p) gunzip).delivered
+
+def Source.failed (gunzip : Bool) (files : Path → FileOracle) (stdinFails : Bool) : Source → Bool
+  | .stdin => stdinFails
+  | .file p => (readOutcome (files p) gunzip).failed
+
+theorem exitCode_spec (re : Nat) (pe : Option Nat) (m : Nat) :
+    (exitCode re pe m).1 = Spec.specExit re (pe.getD 0) m := by
+  unfold exitCode Spec.specExit
+  cases pe <;> simp <;> (repeat' split) <;> simp_all
+
 end Rare.C06
